@@ -48,4 +48,63 @@ package handler
 //@   ensures [closable] result1 == nil ==> old(KVhas)[dsk(ms)][groupKeyOf(msg.ID)] && grpOf(old(KVval)[dsk(ms)], msg.ID).State != types.GroupClosed
 //@   oncall keeper.(IKeeper).OnCloseGroup 1 assert callresult == nil ==> grpOf(KVval[dsk(ms)], group.GroupID).State == types.GroupClosed
 
+// ---- deployments ----------------------------------------------------------------------------------
+// the escrow module as seen from this handler (A-HOOKS, see x/market/keeper): creating an account or adding to it
+// runs no hook; closing a deployment's account runs the hooks that close the deployment
+//@ ghost AcctCloseReq: map[str]bool
+//@ extern handler.(EscrowKeeper).AccountCreate(recv, ctx, id, owner, deposit)
+//@   modifies ghost KVhas, ghost KVval, ghost G, ghost Bank, ghost Mod, ghost It_all
+//@   ensures forall sk: iface {KVval[sk]} :: sk != mktEscrowSKey() ==> KVhas[sk] == old(KVhas)[sk] && KVval[sk] == old(KVval)[sk]
+//@ extern handler.(EscrowKeeper).AccountDeposit(recv, ctx, id, amount)
+//@   modifies ghost KVhas, ghost KVval, ghost G, ghost Bank, ghost Mod, ghost It_all, ghost EvN, ghost EvLog, ghost PayCloseReq
+//@   ensures EvN >= old(EvN) && (forall j: int :: 0 <= j && j < old(EvN) ==> EvLog[j] == old(EvLog)[j])
+//@   ensures forall sk: iface {KVval[sk]} :: sk != mktEscrowSKey() ==> keepsClosed(old(KVhas)[sk], old(KVval)[sk], KVhas[sk], KVval[sk]) && depKeeps(old(KVhas)[sk], old(KVval)[sk], KVhas[sk], KVval[sk])
+//@ extern handler.(EscrowKeeper).AccountClose(recv, ctx, id)
+//@   modifies ghost KVhas, ghost KVval, ghost G, ghost Bank, ghost Mod, ghost It_all, ghost EvN, ghost EvLog, ghost PayCloseReq, ghost AcctCloseReq
+//@   ensures AcctCloseReq == old(AcctCloseReq)[id.XID := true]
+//@   ensures EvN >= old(EvN) && (forall j: int :: 0 <= j && j < old(EvN) ==> EvLog[j] == old(EvLog)[j])
+//@   ensures forall sk: iface {KVval[sk]} :: sk != mktEscrowSKey() ==> keepsClosed(old(KVhas)[sk], old(KVval)[sk], KVhas[sk], KVval[sk]) && depKeeps(old(KVhas)[sk], old(KVval)[sk], KVhas[sk], KVval[sk])
+
+// A deployment is created only if new, with at least the minimum deposit in its denomination and valid groups
+// (C19); it is stored active with one open group per requested group, each with one open order, and its escrow
+// account is opened in the name of the owner.
+//@ func (msgServer).CreateDeployment
+//@   requires msg != nil && dwired(ms)
+//@   modifies ghost KVhas, ghost KVval, ghost G, ghost Bank, ghost Mod, ghost It_all, ghost EvN, ghost EvLog
+//@   ensures [fresh] result1 == nil ==> !old(KVhas)[dsk(ms)][deploymentKeyOf(msg.ID)]
+//@   ensures [deposit] result1 == nil ==> msg.Deposit.Denom == depParams(sdkctx(goCtx)).DeploymentMinDeposit.Denom && msg.Deposit.Amount >= depParams(sdkctx(goCtx)).DeploymentMinDeposit.Amount
+//@   ensures [groups] result1 == nil ==> old(1 <= len(msg.Groups) && len(msg.Groups) <= types.validationConfig.MaxGroupCount
+//@        && (forall i: int :: 0 <= i && i < len(msg.Groups) ==> okGroup(msg.Groups[i]))
+//@        && (forall i: int, j: int :: 0 <= i && i < j && j < len(msg.Groups) ==> msg.Groups[i].Name != msg.Groups[j].Name))
+//@   ensures [rejected] result0 == nil ==> KVhas[dsk(ms)] == old(KVhas)[dsk(ms)] || result1 != nil
+//@   oncall keeper.(IKeeper).Create 1 assert deployment.State == types.DeploymentActive && deployment.DeploymentID == msg.ID && deployment.Version == msg.Version
+//@        && len(groups) == len(msg.Groups)
+//@        && (forall j: int :: 0 <= j && j < len(groups) ==> groups[j].State == types.GroupOpen && groups[j].GroupSpec == msg.Groups[j]
+//@               && groups[j].GroupID.Owner == msg.ID.Owner && groups[j].GroupID.DSeq == msg.ID.DSeq && groups[j].GroupID.GSeq == j + 1)
+//@   loop 1 modifies groups[**]
+//@   loop 1 invariant arr(groups) == atloop(arr(groups)) || freshloop(groups)
+//@   loop 1 invariant 0 <= iter && iter <= len(msg.Groups) && len(groups) == iter && (cap(groups) > 0 ==> fresh(groups))
+//@   loop 1 invariant deployment.State == types.DeploymentActive && deployment.DeploymentID == msg.ID && deployment.Version == msg.Version
+//@   loop 1 invariant forall j: int :: 0 <= j && j < len(groups) ==> groups[j].State == types.GroupOpen && groups[j].GroupSpec == msg.Groups[j]
+//@               && groups[j].GroupID.Owner == msg.ID.Owner && groups[j].GroupID.DSeq == msg.ID.DSeq && groups[j].GroupID.GSeq == j + 1
+//@   loop 2 invariant 0 <= iter && iter <= len(groups)
+//@ func (msgServer).UpdateDeployment
+//@   requires msg != nil && dwired(ms) && depWF(KVhas[dsk(ms)], KVval[dsk(ms)])
+//@   modifies ghost KVhas, ghost KVval, ghost G, ghost EvN, ghost EvLog
+//@   uses depWFGet
+//@   ensures [active] result1 == nil ==> old(KVhas)[dsk(ms)][deploymentKeyOf(msg.ID)] && depOf(old(KVval)[dsk(ms)], msg.ID).State == types.DeploymentActive
+//@   ensures [version] result1 == nil ==> depOf(KVval[dsk(ms)], msg.ID).Version == msg.Version && depOf(KVval[dsk(ms)], msg.ID).State == types.DeploymentActive
+//@ func (msgServer).DepositDeployment
+//@   requires msg != nil && dwired(ms)
+//@   modifies ghost KVhas, ghost KVval, ghost G, ghost Bank, ghost Mod, ghost It_all, ghost EvN, ghost EvLog, ghost PayCloseReq
+//@   ensures [active] result1 == nil ==> old(KVhas)[dsk(ms)][deploymentKeyOf(msg.ID)] && depOf(old(KVval)[dsk(ms)], msg.ID).State == types.DeploymentActive
+// closing goes through the escrow account (the hooks then close the deployment, its groups and everything beneath)
+//@ func (msgServer).CloseDeployment
+//@   requires msg != nil && dwired(ms)
+//@   modifies ghost KVhas, ghost KVval, ghost G, ghost Bank, ghost Mod, ghost It_all, ghost EvN, ghost EvLog, ghost PayCloseReq, ghost AcctCloseReq
+//@   ensures [active] result1 == nil ==> old(KVhas)[dsk(ms)][deploymentKeyOf(msg.ID)] && depOf(old(KVval)[dsk(ms)], msg.ID).State == types.DeploymentActive
+//@   ensures [escrow] result1 == nil ==> AcctCloseReq[depXID(depOf(old(KVval)[dsk(ms)], msg.ID).DeploymentID)]
+
+//@ property C19 := (msgServer).CreateDeployment#*
+//@ property C04 := (msgServer).CreateDeployment#*, (msgServer).UpdateDeployment#*, (msgServer).DepositDeployment#*, (msgServer).CloseDeployment#*
 //@ property C04 := (msgServer).StartGroup#*, (msgServer).PauseGroup#*, (msgServer).CloseGroup#*
